@@ -62,6 +62,19 @@ m(["C20"], "argument-period-is-non-digit", "src/parse_terms.rs", "              
 m(["C20"], "term-digits-converted-early", "src/parse_terms.rs", "    // Check for escaped characters, eg: \\,\n    if chrs.len() == 2 && chrs[0] == '\\\\' { s = &s[1..]; }",
   "    if let Ok(n) = s.parse::<i64>() { return Ok(SInteger(n)); }\n\n    // Check for escaped characters, eg: \\,\n    if chrs.len() == 2 && chrs[0] == '\\\\' { s = &s[1..]; }", "R3")
 
+# ---------------- file loader (C21) ----------------
+m(["C21"], "unreadable-line-skipped-again", "src/rule_reader.rs",
+  "                    Err(err) => {\n                        // A line which cannot be read (eg. invalid UTF-8)\n                        // must not be left out silently.\n                        let msg = format!(\"Cannot read line {}: {}: {}\",\n                                          line_number, err, file_name);\n                        return Err(msg);\n                    },",
+  "                    Err(_) => {},", "R1")
+m(["C21"], "rule-that-does-not-parse-skipped", "src/rule_reader.rs",
+  "            Err(msg) => {\n                let error_message = load_parse_error(msg, previous);\n                return Some(error_message); \n            },",
+  "            Err(msg) => {\n                let _ = load_parse_error(msg, previous.clone());\n            },", "R1")
+m(["C21"], "line-end-check-ignored", "src/rule_reader.rs", "                                Some(msg) => { return Err(msg); },\n                                None => { long_line += &line; },",
+  "                                Some(_msg) => { long_line += &line; },\n                                None => { long_line += &line; },", "R1")
+m(["C21"], "rules-loaded-last-to-first", "src/rule_reader.rs", "    for rule_str in rules {\n        match parse_rule(&rule_str) {", "    for rule_str in rules.into_iter().rev() {\n        match parse_rule(&rule_str) {", "R2")
+m(["C21"], "line-appended-twice", "src/rule_reader.rs", "                                None => { long_line += &line; },", "                                None => { long_line += &line; if line_number == 1 { long_line += &line; } },", "R3")
+m(["C21"], "parsed-rule-not-added", "src/rule_reader.rs", "                previous = rule_str;\n                add_rules!(kb, rule);", "                previous = rule_str;\n                if kb.len() < 100000 { add_rules!(kb, rule); }", None)
+
 # ---------------- solver (C01-C05) ----------------
 m(["C01"], "or-tail-from-head-set", "src/solution_node_and_or.rs",
   "            let ss = Rc::clone(&sn_ref.ss);\n            let tail_sn = make_solution_node(Rc::new(tail_goal),\n                                             sn_ref.kb, ss,",
